@@ -470,11 +470,11 @@ func runC16(ctx *core.Ctx, pool *par.Pool) {
 	} else {
 		runs = append(runs, c16run{pagedrv.CfgB, seedOverflow, overflowAlphabet, depth}, c16run{pagedrv.CfgA, seedOverflow, overflowAlphabet, depth})
 	}
-	share := ctx.Budget() / time.Duration(len(runs))
 	for _, run := range runs {
 		cfg := run.cfg
 		var quiet []*xstate.Node
 		seenLog := map[string]bool{}
+		share := ctx.FairShare(len(runs), 1)
 		endRun := ctx.Phase(share)
 		endBFS := ctx.Phase(share * 3 / 10)
 		st := xstate.BFS(ctx, pool, xstate.Spec{Cfg: cfg, Seed: run.seed.Ops, Alphabet: run.alphabet, MaxDepth: run.depth,
